@@ -16,4 +16,19 @@ theorem orphan_breaks (p m d : List Nat) (x : Nat) (hx : x ∈ d) (hp : x ∉ p)
   | false => rfl
   | true => exact absurd (((inventoryOK_iff p m d h).2 x).mpr hx) hp
 
+/-- read for ONE generator run into empty output directories (`m`, `d` = names of the modules and pages it wrote):
+    every definition got both of its files from this run, and the run wrote nothing else -/
+theorem run_complete (p m d : List Nat) (h : inventoryOK p m d = true) :
+    (∀ x ∈ p, x ∈ m ∧ x ∈ d) ∧ (∀ x, x ∈ m ∨ x ∈ d → x ∈ p) := by
+  obtain ⟨hm, hd⟩ := inventoryOK_iff p m d h
+  exact ⟨fun x hx => ⟨(hm x).mp hx, (hd x).mp hx⟩, fun x hx => hx.elim (hm x).mpr (hd x).mpr⟩
+
+/-- a definition for which the run wrote no module, or no page, makes the obligation fail -/
+theorem unwritten_breaks (p m d : List Nat) (x : Nat) (hx : x ∈ p) (hw : x ∉ m ∨ x ∉ d) : inventoryOK p m d = false := by
+  cases h : inventoryOK p m d with
+  | false => rfl
+  | true =>
+    have := (run_complete p m d h).1 x hx
+    exact hw.elim (fun k => absurd this.1 k) (fun k => absurd this.2 k)
+
 end Nx.Schema.Inv
